@@ -113,37 +113,23 @@ WriteEntry(en, f, off, trk) ==
   LET s == SplitEntry(f, off, EntryLen(en), trk) IN
     [effs |-> << <<"ENTRY", en>> >> \o s.effs, file |-> s.file, off |-> s.off, tracked |-> s.tracked]
 
-PersistEffs(f) == << Eff("FL", f, -1, 0, 0), Eff("FS", f, -1, 0, 0), Eff("DS", -1, -1, 0, 0) >>
 PolicyEffs(f) ==
   CASE Policy = "always_flush" -> << Eff("FL", f, -1, 0, 0), <<"PROMISE", {"process"}>> >>
     [] Policy = "always_fsync" -> PersistEffs(f) \o << <<"PROMISE", {"process", "power"}>> >>
     [] OTHER -> <<>>
 
-RECURSIVE PosEntries(_, _, _, _, _, _)
-PosEntries(qs, m, f, off, trk, acc) ==
-  IF qs = <<>> THEN [effs |-> acc, file |-> f, off |-> off, tracked |-> trk]
-  ELSE LET q == Head(qs)
-           w == WriteEntry([k |-> "pos", q |-> q, p |-> MemNext(m[q]), batch |-> <<>>], f, off, trk)
-       IN PosEntries(Tail(qs), m, w.file, w.off, w.tracked, acc \o w.effs)
-
-RECURSIVE Deletable(_, _, _)
-Deletable(trk, refs, acc) ==
-  IF Cardinality(trk) < 2 THEN acc
-  ELSE LET f == CHOOSE x \in trk : \A y \in trk : x <= y IN
-         IF f \in refs THEN acc ELSE Deletable(trk \ {f}, refs, Append(acc, f))
-
 (* run_gc_if_necessary: m is the memory AFTER the call's in-memory update, *)
 (* (f, off) the cursor after the call's own entry, qorder the order in     *)
-(* which the HashMap yields the empty queues.                              *)
+(* which the HashMap yields the empty queues.  The plan itself is          *)
+(* WalPlan!GcPlanG (shared with the trace specification); here its         *)
+(* position-entry markers become ENTRY effects.                            *)
+PosEntryOf(m, q) == [k |-> "pos", q |-> q, p |-> MemNext(m[q]), batch |-> <<>>]
 GcPlan(m, trk, f, off, qorder) ==
-  LET can == Cardinality(trk) >= 2 /\ ~((CHOOSE x \in trk : \A y \in trk : x <= y) \in (QRefs(m) \cup {f}))
-  IN IF ~can THEN [effs |-> <<>>, file |-> f, off |-> off, tracked |-> trk]
-     ELSE LET pe == PosEntries(qorder, m, f, off, trk, <<>>)
-              \* the clone of current_file taken BEFORE the position entries pins f
-              del == Deletable(pe.tracked, QRefs(m) \cup {f, pe.file}, <<>>)
-              sync == IF GcAlwaysSyncs \/ pe.effs # <<>> THEN PersistEffs(pe.file) ELSE <<>>
-          IN [effs |-> pe.effs \o sync \o [i \in 1..Len(del) |-> Eff("UL", del[i], -1, 0, 0)],
-              file |-> pe.file, off |-> pe.off, tracked |-> pe.tracked]
+  LET lens == [i \in 1..Len(qorder) |-> EntryLen(PosEntryOf(m, qorder[i]))]
+      g == GcPlanG(QRefs(m), trk, f, off, lens, GcAlwaysSyncs)
+  IN [effs |-> [i \in 1..Len(g.effs) |->
+                   IF g.effs[i][1] = "PE" THEN <<"ENTRY", PosEntryOf(m, qorder[g.effs[i][2]])>> ELSE g.effs[i]],
+      file |-> g.file, off |-> g.off, tracked |-> g.tracked]
 
 Orders(S) == IF S = {} THEN {<<>>} ELSE
   LET RECURSIVE Perms(_)
